@@ -4,6 +4,7 @@ package ecs
 
 func init() {
 	vRegister("HC10_Illegal", HC10_Illegal)
+	vRegister("HC10_BatchDup", HC10_BatchDup)
 }
 
 func (x *hW) smallSet(name string) uint8 {
@@ -199,6 +200,42 @@ func (x *hW) illegalStep(class int) {
 		}
 		x.lastPan = true
 	}
+}
+
+// HC10_BatchDup: duplicate component ids in one batch call panic (like the single-entity forms).
+func HC10_BatchDup() {
+	prof, capInc, relInc := hConfig2()
+	x := hNew(prof, 6, capInc, relInc)
+	x.prefix([4]int{1, 3, 8, 9}[vChoice("prefix", 4)])
+	A, B := x.id[uA], x.id[uB]
+	b := x.mkFilter(fAexcl, Entity{})
+	_, m := x.matching(fAexcl, Entity{})
+	vAssume(m >= 1)
+	w := &x.w
+	var pan bool
+	switch vChoice("how", 6) {
+	case 0:
+		pan, _ = vCatch(func() { w.Batch().Remove(b.f, A, A) })
+	case 1:
+		pan, _ = vCatch(func() { w.Batch().Add(b.f, B, B) })
+	case 2:
+		pan, _ = vCatch(func() { w.Batch().Exchange(b.f, []ID{B}, []ID{A, A}) })
+	case 3:
+		pan, _ = vCatch(func() { w.Batch().Exchange(b.f, []ID{B, x.id[uC], B}, nil) })
+	case 4:
+		pan, _ = vCatch(func() {
+			q := w.Batch().RemoveQ(b.f, A, A)
+			q.Close()
+		})
+	default:
+		pan, _ = vCatch(func() {
+			q := w.Batch().AddQ(b.f, B, B)
+			q.Close()
+		})
+	}
+	vAssert(pan, "duplicate component ids in one batch call panic")
+	vAssert(!w.IsLocked(), "a failed batch call does not leave the world locked")
+	vReach("end")
 }
 
 func HC10_Illegal() {
